@@ -54,7 +54,12 @@ func (vc *VC) frameCheck(st *State, a *Addr) {
 		}
 		goal = Or(alts...)
 	case AElem:
+		names, _, _ := vc.cellArrays(a)
+		if len(names) > 0 {
+			vc.curFamily = names[0]
+		}
 		goal = vc.regionWritable(a.Reg, a.Idx, Add(a.Idx, "1"))
+		vc.curFamily = ""
 	default:
 		return
 	}
@@ -68,6 +73,9 @@ func (vc *VC) regionWritable(reg, lo, hi string) string {
 		return T
 	}
 	alts := []string{Gt(reg, vc.entryAlloc), Ge(lo, hi)}
+	if vc.curFamily != "" && familyOf(vc.modset, vc.curFamily) {
+		return T
+	}
 	for _, m := range vc.modset.Regions {
 		alts = append(alts, And(Eq(reg, m.Reg), Le(m.Lo, lo), Le(hi, m.Hi)))
 	}
@@ -226,6 +234,8 @@ func (vc *VC) copyRange(st *State, et types.Type, dreg, doff, sreg, soff, n stri
 }
 
 func (vc *VC) builtinCopy(st *State, dst, src Val, srcIsString bool, et types.Type) Val {
+	vc.curFamily = "E_" + typeKey(et)
+	defer func() { vc.curFamily = "" }()
 	var n string
 	if srcIsString {
 		sl := app("slen", src.S)
@@ -247,6 +257,8 @@ func (vc *VC) builtinCopy(st *State, dst, src Val, srcIsString bool, et types.Ty
 
 func (vc *VC) builtinAppend(st *State, s, add Val, addIsString bool, t types.Type) Val {
 	et := t.Underlying().(*types.Slice).Elem()
+	vc.curFamily = "E_" + typeKey(et)
+	defer func() { vc.curFamily = "" }()
 	var n string
 	if addIsString {
 		n = app("slen", add.S)
@@ -360,6 +372,12 @@ func (vc *VC) instr(st *State, in ssa.Instruction) {
 	case *ssa.Store:
 		av := vc.get(st, x.Addr)
 		v := vc.get(st, x.Val)
+		if v.K == KFunc && !(av.K == KAddr && av.A.Kind == ALocal) {
+			// a function value stored in memory: an opaque non-nil id (it can no longer be called symbolically)
+			id := vc.fresh("fn", "Int")
+			st.assume(vc, Lt(id, "0"))
+			v = IntV(id, x.Val.Type())
+		}
 		if av.K == KInt {
 			vc.nilCheck(st, av, "store through nil pointer")
 		}
